@@ -15,8 +15,8 @@ From Verif.C08 Require Import Model Spec ProofsFilter.
 From Verif.C09 Require Import Model ProofsPolicy ProofsModel.
 From Verif.C09 Require Spec.
 From Verif.C11 Require Import Bpf Model.
-From Verif.C11 Require Spec ProofsMain ProofsFinal.
-From Verif.C12 Require Import Model Spec Proofs ProofsChecker ProofsAgree ProofsFinal.
+From Verif.C11 Require Spec ProofsMain ProofsSets ProofsFinal.
+From Verif.C12 Require Import Model Spec Proofs ProofsChecker ProofsAgree ProofsFinal ProofsExample.
 Import ListNotations.
 Open Scope N_scope.
 
@@ -62,6 +62,23 @@ Theorem c12_agree : forall kv v tbl tiers profs p
   /\ chk_vd (chk_endpoint kv tbl tiers profs p) = r.
 Proof. exact c12_agree_pf. Qed.
 Print Assumptions c12_agree.
+
+(* MODEL MEETS SPEC: the oracle the correspondence run applies to the four REAL verdicts (ok_agree: equal to each
+   other and to the reference) accepts every run of the four models on the common fragment *)
+Theorem c12_model_meets_spec : forall kv v tbl tiers profs p
+    ci ei eci name_i mt_i mp_i fi cn en ecn name_n mt_n mp_n fn kind bs nm nnm,
+  state_in_fragment kv v tbl tiers profs = true -> packet_in_fragment p = true -> pk_ver p = v ->
+  wf_packet p -> pk_ct p = CtNew ->
+  ipt_hyps ci ei eci v name_i mt_i mp_i tbl tiers profs p ->
+  ipt_hyps cn en ecn v name_n mt_n mp_n tbl tiers profs p ->
+  bpf_hyps v tbl kind bs (bpf_rules nm nnm tiers profs) p ->
+  ok_agree (vd_of_ref (ref_verdict v tbl tiers profs p))
+    (ipt_vd ci (Ipt.run_chain (3 + fi) (render_endpoint eci ci v name_i mt_i mp_i) ei name_i p))
+    (ipt_vd cn (Ipt.run_chain (3 + fn) (render_endpoint ecn cn v name_n mt_n mp_n) en name_n p))
+    (bpf_model_vd v (bpf_rules nm nnm tiers profs) bs (pstate_of p))
+    (chk_vd (chk_endpoint kv tbl tiers profs p)) = true.
+Proof. exact c12_model_meets_spec_pf. Qed.
+Print Assumptions c12_model_meets_spec.
 
 (* ... hence pairwise equal, the form of the property text *)
 Theorem c12_agree_pairwise : forall (a b c d r : vd), a = r /\ b = r /\ c = r /\ d = r -> a = b /\ b = c /\ c = d.
@@ -125,3 +142,17 @@ Example c12_checker_verdict_hyps_satisfiable :
   /\ ref_verdict V4 ex_tbl ex_tiers ex_profs tcp_packet = VAllow
   /\ chk_endpoint pinned_kvariant ex_tbl ex_tiers ex_profs tcp_packet = ROk.
 Proof. exact checker_hyps_satisfiable_pf. Qed.
+
+(* the hypotheses of c12_agree are satisfiable, all at once, by that state: an iptables rendering (both policies of
+   tier 1 in one policy group) and an nftables rendering (one group per policy, flow logs, REJECT) with their own chain
+   names, the BPF view with the LPM lookup of Bpf.v on the same member table, the pinned variants of all four, and the
+   TCP packet the reference allows *)
+Example c12_agree_hyps_satisfiable :
+  state_in_fragment pinned_kvariant V4 ex_tbl ex_tiers ex_profs = true /\ packet_in_fragment tcp_packet = true
+  /\ wf_packet tcp_packet /\ pk_ct tcp_packet = CtNew
+  /\ ipt_hyps ex_ci ex_env ex_ec V4 "ep" ex_mt_i ex_mp ex_tbl ex_tiers ex_profs tcp_packet
+  /\ ipt_hyps ex_cn ex_env ex_ec V4 "ep" ex_mt_n ex_mp ex_tbl ex_tiers ex_profs tcp_packet
+  /\ bpf_hyps V4 ex_tbl (C11.ProofsSets.table_kind ex_tbl) (set_lookup ex_bpf_env) (bpf_rules no_name no_name ex_tiers ex_profs) tcp_packet
+  /\ vd_of_ref (ref_verdict V4 ex_tbl ex_tiers ex_profs tcp_packet) = VdAllow
+  /\ List.length (render_endpoint ex_ec ex_ci V4 "ep" ex_mt_i ex_mp) = 4%nat.
+Proof. exact agree_hyps_satisfiable_pf. Qed.
